@@ -129,14 +129,18 @@ fn enumerate_part(report: &mut Report, tier: Tier) -> Result<(), (Fail, serde_js
 }
 
 fn stress(report: &mut Report) -> Result<(), Fail> {
-    for used_n in [0u32, 1, 1000] {
+    for used_n in [0u32, 1, 1000, 300_000] {
         let used: RoaringBitmap = (0..used_n).filter(|i| i % 3 != 1).collect();
         let ids = ConcurrentNodeIds::new(used.clone());
         let per = 100_000usize;
         let all: Mutex<Vec<u32>> = Mutex::new(Vec::with_capacity(16 * per));
+        // all 16 requesters start together: the recycled ids (a third of the range) are handed out under
+        // real contention, not by whichever thread happens to start first
+        let barrier = std::sync::Barrier::new(16);
         std::thread::scope(|s| {
             for _ in 0..16 {
                 s.spawn(|| {
+                    barrier.wait();
                     let mut mine = Vec::with_capacity(per);
                     for _ in 0..per {
                         match std::panic::catch_unwind(std::panic::AssertUnwindSafe(|| ids.next())) {
